@@ -1159,8 +1159,10 @@ class MainTransformer(object):
                         if vfunc.name == invoker_name:
                             matched = True
                             vfunc.invoker = node.name
-                            # Also merge in annotations
-                            self._apply_annotations_callable(vfunc, [parent], block)
+                            # Also merge in annotations, unless the virtual
+                            # method is documented by a block of its own
+                            if self._get_vfunc_block(parent, vfunc) is None:
+                                self._apply_annotations_callable(vfunc, [parent], block)
                             break
                     if not matched:
                         message.warn_node(node,
@@ -1559,6 +1561,18 @@ method or constructor of some type."""
 
         return True
 
+    def _get_vfunc_block(self, parent, vfunc):
+        """The comment block 'ClassStruct::name' documenting a virtual
+        method of parent itself, or None.  (vfunc.doc does not tell: without
+        such a block it holds the description of the class struct field.)"""
+        if not parent.glib_type_struct:
+            return None
+        class_struct = self._transformer.lookup_typenode(parent.glib_type_struct)
+        if class_struct is None:
+            return None
+        prefix = self._get_annotation_name(class_struct)
+        return self._blocks.get('%s::%s' % (prefix, vfunc.name))
+
     def _pair_class_virtuals(self, node):
         """Look for virtual methods from the class structure."""
         if not node.glib_type_struct:
@@ -1619,6 +1633,12 @@ method or constructor of some type."""
                     continue
                 if len(method.parameters) != len(vfunc.parameters):
                     continue
+                if self._get_vfunc_block(node, vfunc) is not None:
+                    # A virtual method documented by a block of its own
+                    # ('ClassStruct::name') only learns who invokes it; the
+                    # invoker's block is inherited by undocumented ones
+                    vfunc.invoker = method.name
+                    break
                 for i in range(len(method.parameters)):
                     m_type = method.parameters[i].type
                     v_type = vfunc.parameters[i].type
